@@ -109,6 +109,10 @@ def run_matrix(tier, seed, report):
                 n_eval += 1
                 report("matrix/no-cache/{}/pw={}".format(name, pw), same(got, refs[name]),
                        dict(max_abs_diff=float(np.max(np.abs(np.asarray(got) - refs[name]))) if np.shape(got) == refs[name].shape else "shape"))
+            # other operators constructed in the same process before the pooled call (they must not leak into the workers)
+            with quiet():
+                _other1 = SingleLayerOperator(build_mesh("LShape", steps=1), pw_exact=not pw)
+                _other2 = SingleLayerOperator(mesh, pw_exact=not pw, quad_order=4)
             for w in workers:
                 slmod.mp.cpu_count = lambda w=w: w
                 for name in ("serial-10x12", "serial-12x10"):
